@@ -282,3 +282,55 @@ func TestSimplifierAgainstReference(t *testing.T) {
 		}
 	}
 }
+
+// Path facts: conditions that hold under the assignment are recorded with AddFact (as the
+// interpreter does for every path-condition conjunct); terms built afterwards may be simplified
+// using them and must still evaluate to the reference value under that assignment.
+func TestFactsAgainstReference(t *testing.T) {
+	rng := rand.New(rand.NewSource(777))
+	for i := 0; i < 40000; i++ {
+		env := map[string]uint64{}
+		m := NewModel()
+		for _, v := range testVars {
+			var x uint64
+			switch rng.Intn(4) {
+			case 0:
+				x = uint64(rng.Intn(300))
+			case 1:
+				x = uint64(rng.Int63()) << 1
+			case 2:
+				x = uint64(rng.Intn(70000))
+			default:
+				x = ^uint64(0) - uint64(rng.Intn(5))
+			}
+			x &= mask(v.w)
+			env[v.name] = x
+			m.Vars[v.name] = x
+		}
+		m.Total = true
+		c := NewTermCtx()
+		// facts
+		for k := 0; k < 1+rng.Intn(4); k++ {
+			fe := genBool(rng, 2)
+			ft := fe.build(c)
+			if fe.eval(env) != 0 {
+				c.AddFact(ft)
+			} else {
+				c.AddFact(c.Not(ft))
+			}
+		}
+		var e *rexp
+		if i%3 == 0 {
+			e = genBool(rng, 4)
+		} else {
+			ws := []int{8, 16, 32, 64}
+			e = genBV(rng, ws[rng.Intn(4)], 4)
+		}
+		tm := e.build(c)
+		want := e.eval(env)
+		got, _ := m.Eval(tm)
+		if got != want {
+			t.Fatalf("iteration %d: mismatch with facts: got %d want %d\nterm %s\nenv %v", i, got, want, termStr(tm, 12), env)
+		}
+	}
+}
